@@ -1,7 +1,7 @@
 from core import Unit as U
 UNITS = [
     U("C09.proveparams", ["C09"], "harness/C09/proveparams.c", "h_proveparams",
-      functions=["secp256k1_range_proveparams", "secp256k1_clz64_var"], timeout=600, min_obl=20, unwind=66, replay=True,
+      functions=["secp256k1_range_proveparams", "secp256k1_clz64_var"], timeout=600, min_obl=20, unwind=66, replay=True, solver="cadical",
       closed_by="full unwinding to the code-enforced constants (exp <= 18, rings <= 32, clz <= 64); unwinding assertions prove the bounds",
       note="pure 64-bit function; all (value, min_value, exp in [-1,18], min_bits in [0,64]) with min_value <= value"),
 ]
